@@ -308,6 +308,28 @@ def run():
         ctx.violation('C06: %s violated in %s (%s -> %s) on %d records; first: route=%s mode=%s supplied=%s sees=%s proc=%s %s' % (
             clause, variant, caller, stage, len(rs), r['route'], r.get('mode'), r.get('supplied', r.get('option')), r.get('sees'), r.get('proc'), r.get('err') or (r.get('eff') or '')),
             {'clause': clause, 'record': r})
+    # Leg E: the option has its EFFECT at the stage, not only its arrival there: the extrema-padding stage called with the
+    # caller's magnitude padding ({'mode': 'reflect'}), directly and through interp_envelope's extrema_opts, on signals with so
+    # few extrema that the padding has to be repeated - every round must pad the way the caller configured
+    # (ExtremaDef!PaddedWith, the operator C05 validates the default padding against).
+    from . import extrema_check as XC
+    rng = np.random.RandomState(ctx.seed + 606)
+    eseqs = sorted(set(tuple(int(v) for v in rng.randint(-1, 2, size=rng.randint(5, 10))) for _ in range(ctx.pick(200, 2000))))
+    erecs = [r for p in core.pmap(XC.gen, [(eseqs[i::8], True, XC.MODES, 'reflect') for i in range(8)], workers=8) for r in p]
+    ebad = core.validate_records(ctx, 'ExtremaRec', erecs, name='ExtremaRec-option-effect')
+    nrep = 0
+    for r in erecs:
+        if r['kind'] == 'pad' and r['none'] == 0 and r['pw'] > 0 and len(r['locs']) > 2 + 2 * r['pw']:
+            nrep += 1
+            ctx.nontrivial(('effect', tuple(r['sig']), r['pw'], r['mode'], r['parab']))
+    eseen = {}
+    for r, clause in ebad:
+        eseen.setdefault((r['kind'], clause), []).append(r)
+    for (kind, clause), rs in eseen.items():
+        rs.sort(key=lambda r: (len(r['sig']), r['pw']))
+        ctx.violation("C06: extrema_opts mag_pad_opts={'mode': 'reflect'} does not take effect in %s (%s) on %d records; smallest: %s" % (
+            {'pad': 'get_padded_extrema', 'env': 'interp_envelope'}[kind], clause, len(rs), rs[0]), {'leg': 'E', 'clause': clause, 'record': rs[0]})
+    ctx.leg('E', records=len(erecs), signals=len(eseqs), repeated_padding_records=nrep, mismatches=len(ebad))
     ctx.cov['exhaustive'] = True
     ctx.cov['rule'] = ('variant in {sift, ensemble_sift, complete_ensemble_sift, mask_sift} x route {keyword dicts, **SiftConfig, get_func partial, get_func partial re-issued after direct nested edits} x all 2^3 patterns of supplied '
                        'option groups (distinguishable non-default values incl. custom np.pad options) x noise mode / mask-frequency source, plus both second-layer sifts; every distinct '
